@@ -68,7 +68,34 @@ var (
 	holdDur atomic.Int64
 )
 
+// SetGate makes the next Lock whose caller's function name contains fn stop right after the acquisition - inside its
+// critical section - until release is called; parked is closed when a caller has stopped there.  One caller is held,
+// later ones pass.  For directed trials that need "X holds this lock now" as a fact rather than as a timing guess.
+func SetGate(fn string) (parked <-chan struct{}, release func()) {
+	g := &gate{fn: fn, parked: make(chan struct{}), open: make(chan struct{})}
+	gateP.Store(g)
+	var once sync.Once
+	return g.parked, func() { once.Do(func() { gateP.CompareAndSwap(g, nil); close(g.open) }) }
+}
+
+type gate struct {
+	fn     string
+	taken  atomic.Bool
+	parked chan struct{}
+	open   chan struct{}
+}
+
+var gateP atomic.Pointer[gate]
+
 func hold() {
+	if g := gateP.Load(); g != nil {
+		if pc, _, _, ok := runtime.Caller(2); ok {
+			if f := runtime.FuncForPC(pc); f != nil && strings.Contains(f.Name(), g.fn) && g.taken.CompareAndSwap(false, true) {
+				close(g.parked)
+				<-g.open
+			}
+		}
+	}
 	d := holdDur.Load()
 	if d == 0 {
 		return
